@@ -207,7 +207,7 @@ def kernel_features(prog, flows, k):
     lns = [t for t in calls if t.callee.short.endswith("f64::ln")]
     draw = None
     for t in lns:
-        d = panic.norm(fl.describe(t.args[0], depth=8))
+        d = panic.norm(panic.expand_names(fl, panic.norm(fl.describe(t.args[0], depth=8))))
         if d[0] == "binop" and d[1] == "Sub" and const_f(d[2]) == 1.0 and d[3][0] == "call" and d[3][1].endswith("Rng::gen"):
             draw = "ln(1 - gen::<f64>())"
     f["draw"] = draw
